@@ -26,6 +26,7 @@
 #include "runtime/sink.h"
 #include "runtime/source.h"
 #include "runtime/filter.h"
+#include "device/kit/camera.h"
 
 /* every output line starts with "@<thread id> " (the acting thread; the model's transitions are per thread) */
 #include <stdarg.h>
@@ -167,6 +168,16 @@ enum DeviceStatusCode __wrap_video_sink_start(struct video_sink_s* self)
     enum DeviceStatusCode r = __real_video_sink_start(self);
     if (r != Device_Ok && before != (int)DeviceState_Armed)
         printf("H s%d sink start refused state=%d\n", self ? (int)self->stream_id : -1, before);
+    return r;
+}
+/* the same for video_source_start and a camera that is not Armed (it failed and was not configured since) */
+enum DeviceStatusCode __real_video_source_start(struct video_source_s* self);
+enum DeviceStatusCode __wrap_video_source_start(struct video_source_s* self)
+{
+    const int before = (self && self->camera) ? (int)self->camera->state : -1;
+    enum DeviceStatusCode r = __real_video_source_start(self);
+    if (r != Device_Ok && before != (int)DeviceState_Armed)
+        printf("H s%d source start refused state=%d\n", self ? (int)self->stream_id : -1, before);
     return r;
 }
 static const char* reader_name(struct channel* c, struct channel_reader* r, int s)
